@@ -626,11 +626,17 @@ void exec_poison_on(Plan const& p, Report& rep)
                 if (rec.iter == k && rec.poison == POISON_DIST) ++dist_only;
             }
         }
-        if (r.nz - r.fin != poisoned - dist_only)
+        // (evaluations that are not finite without any help - a finite value times a huge weight that
+        // overflows - are in both twin runs: the difference is what the injected ones add)
+        ResultView const& z = zv.results[k];
+        u64 const natural = z.nz - z.fin;
+        if (natural != 0) rep.probes["non-finite-product-without-injection"]++;
+        if (r.nz - r.fin != natural + poisoned - dist_only)
         {
             rep.fail("C06", "non-finite-count", key, fmt(
-                "iteration %llu: non_zero_calls - finite_calls = %llu, %llu calls were made non-finite",
-                (unsigned long long) k, (unsigned long long) (r.nz - r.fin), (unsigned long long) (poisoned - dist_only)));
+                "iteration %llu: non_zero_calls - finite_calls = %llu, %llu calls were made non-finite (and %llu are not finite in the twin run either)",
+                (unsigned long long) k, (unsigned long long) (r.nz - r.fin), (unsigned long long) (poisoned - dist_only),
+                (unsigned long long) natural));
             return;
         }
     }
